@@ -7,7 +7,7 @@ ROOT = os.path.dirname(os.path.dirname(os.path.abspath(__file__)))
 ap = argparse.ArgumentParser(); ap.add_argument('-j', type=int, default=4); ap.add_argument('--benign', action='store_true'); ap.add_argument('ids', nargs='*')
 a = ap.parse_args()
 base = os.path.join(ROOT, 'benign' if a.benign else 'seeded')
-ids = a.ids or sorted(d for d in os.listdir(base) if os.path.exists(os.path.join(base, d, 'patch.diff')))
+ids = a.ids or sorted(d for d in os.listdir(base) if os.path.exists(os.path.join(base, d, 'patch.diff')) and (a.benign or os.path.exists(os.path.join(base, d, 'meta.json'))))
 ALL = [f'C{i:02d}' for i in range(1, 21)]
 
 def one(i):
